@@ -25,11 +25,13 @@ META = {
             'modules behind a real Dispatcher and the module attributes, the hardware stub, the reply and the view '
             'reconstructed from the update stream are compared with the expected abstract state after every step; '
             'seeded random longer histories over larger value sets are validated by TLC against Trace_Linked*.',
-    'note': 'Bounded: 2-3 members, 6 value tables, 4 limit kinds, 1-3 controllers, alphabets of 5-7 operations per '
-            'layout at full depth (wider alphabets only in the random traces); client/driver path, class structure and '
-            'driver style are picked by the harness from the seed, not enumerated by TLC. Trusted: TLC, the alpha/gamma '
-            'tables in harness/props/c18.py, the faithful hardware stubs. Direct assignment to the derived float '
-            'parameter and check hooks returning True are outside the alphabet.',
+    'note': 'Bounded: 2-3 members, 6 value tables, 4 limit kinds, 1-3 controllers; alphabets of 4-6 operations per '
+            'layout at full depth, wider alphabets / more layouts at depth 4-5 (thorough) and in the random traces; '
+            'client/driver path, class structure (same/mixin/derived), int/float datatype and driver style are picked '
+            'by the harness from the seed, not enumerated by TLC. Behaviours are not followed beyond a step that shows '
+            'a known finding. Trusted: TLC, the alpha/gamma tables in harness/props/c18.py, the hardware stubs. Direct '
+            'assignment to the derived float parameter, check hooks returning True and hardware that refuses an index '
+            'are outside the alphabet.',
     'tech': 'TLA+ specs (LinkedStruct, LinkedFloatEnum, LinkedLimits, LinkedControl) + TLC model checking; '
             'spec->code replay of all TLC behaviours; code->spec TLC trace validation',
     'ref': 'DESIGN.md section 5 C18',
@@ -741,18 +743,21 @@ def _trace_signature(sub, trace, l):
 def run(chk):
     quick = chk.tier == 'quick'
     tier = 'quick' if quick else 'thorough'
-    chk.rule = ('per sub-module: every operation sequence TLC enumerates over the Gen_* alphabet (depth 5 quick / 7 '
-                'thorough, per layout) executed once on real modules, state compared after every step with the set of '
-                'outcomes TLC printed; plus seeded random histories validated by Trace_*. A case is distinct by '
-                '(layout, action sequence); non-trivial = contains at least one state-changing operation')
+    chk.rule = ('per sub-module: every operation sequence TLC enumerates over the Gen_* alphabet (depth 5 quick; depth 7 '
+                'narrow + depth 4-5 wide thorough, per layout) executed once on real modules, state compared after every '
+                'step with the set of outcomes TLC printed; plus seeded random histories (30/40 operations) validated by '
+                'Trace_*. A case is distinct by (configuration, layout, action sequence) or trace seed; all are '
+                'non-trivial (every alphabet operation reads, writes or updates a linked parameter)')
     pool = ThreadPoolExecutor(12)
     t0 = time.time()
     timing = chk.notes.setdefault('timing_s', {})
-    list(pool.map(sany, ['Linked'] + [pre + m for m in SUBS for pre in ('', 'Gen_', 'Trace_')]))
+    # every other module is parsed by the TLC runs below (a parse error there is a machinery failure as well)
+    list(pool.map(sany, ['Linked'] if quick else ['Linked'] + [pre + m for m in SUBS for pre in ('', 'Gen_', 'Trace_')]))
     timing['sany'] = round(time.time() - t0, 1)
     # 1 design check + 2 behaviour emission, all TLC runs side by side
     mcs = {m: pool.submit(model_check, m, f'MC_{m}_{tier}.cfg', timeout=600, workers=2) for m in SUBS}
-    mcs['Linked'] = pool.submit(model_check, 'Linked', 'MC_Linked.cfg', timeout=300, workers=2)   # composition root
+    if not quick:   # composition root on a tiny instance
+        mcs['Linked'] = pool.submit(model_check, 'Linked', 'MC_Linked.cfg', timeout=300, workers=2)
     cfgs = [(m, f'Gen_{m}_{c}.cfg') for c in (('quick',) if quick else ('thorough', 'thorough_wide')) for m in SUBS]
     gens = [(m, cfg, pool.submit(run_tlc, 'Gen_' + m, cfg, workers=1, timeout=1100, heap='3g' if quick else '5g'))
             for m, cfg in cfgs]
